@@ -16,7 +16,7 @@ def run(tier, seed):
     for r in grecs:
         if tier == "quick" and r["obj"]["graph"]["n"] >= 5 and (r["id"] + seed) % 2:
             continue
-        base = {"obj": r["obj"], "id": r["id"], "sizekind": r["sizekind"], "sizes": r["sizes"],
+        base = {"obj": r["obj"], "id": r["id"], "flip": GC.flip_of(seed, r["id"]), "sizekind": r["sizekind"], "sizes": r["sizes"],
                 "form": ["list", "array"][(seed + r["id"]) % 2]}
         for i in range(0, len(r["parts"]), 24):
             gjobs.append(dict(base, parts=r["parts"][i:i + 24], expects=r["ok"][i:i + 24]))
@@ -37,7 +37,7 @@ def run(tier, seed):
         m = len(r["obj"]["graph"]["edges"])
         forms = ["vars"] if r["obj"]["kind"] == "inner" else ["vars", "array", "neg", "xor"]
         f = forms[(seed + r["id"]) % len(forms)]
-        base = {"obj": r["obj"], "id": r["id"], "sizekind": r["sizekind"], "sizes": r["sizes"], "form": f}
+        base = {"obj": r["obj"], "id": r["id"], "flip": GC.flip_of(seed, r["id"]), "sizekind": r["sizekind"], "sizes": r["sizes"], "form": f}
         if not (tier == "quick" and m >= 12 and (r["id"] + seed) % 4):
             bjobs += GC.split_patterns(dict(base, patterns=list(range(2 ** m)), expects=r["ok"]), 64)
         # native route: in the grid form the sizes are free integer variables (the API requires an IntArray2D),
